@@ -39,7 +39,7 @@ RULE = ('each run is either (a) a transparency twin set: one generated tree + Ma
         'directions, audited on disk; non-trivial = at least one sub-Manifest exists; distinct = distinct seam '
         'event-log digest')
 PLAN = {'quick': {'n': 6000, 'budget_s': 90, 'block': 25},
-        'thorough': {'n': 60000, 'budget_s': 1200, 'block': 150}}
+        'thorough': {'n': 300000, 'budget_s': 2400, 'block': 150}}
 ASSUMPTIONS = ['results are compared modulo the compression suffix in reported Manifest paths']
 
 SUFF = [None, 'gz', 'bz2', 'lzma', 'xz']
